@@ -27,6 +27,16 @@ def models(chk, tier):
                         constants={"WBits": 6, "MaxTps": 2, "MaxSecs": 4, "TsBug": '"addoverflow"'}, invariants=TS_INVS)
     res, verdict = vlib.model_check("MCTimestamp", cfg, workers=4, timeout=600)
     chk.add_model("MCTimestamp[TsBug=addoverflow] (pinned `ticks += offset`; self-test, must fail)", res, verdict, expect="violated")
+    # the same arithmetic at the production word size, decided symbolically (Apalache / Z3): 64-bit words, EVERY tick
+    # rate 1..10^9, every (secs, ticks), reference and offset of the representable range
+    consts = {"MaxTps": 1000000000, "TsBug": '"none"'}
+    res, verdict = vlib.apalache_check("ApaTimestamp", consts, "Inv", label="c17apa")
+    chk.add_model("ApaTimestamp(64-bit words, every rate 1..10^9; symbolic, Apalache/Z3)", res, verdict)
+    res, verdict = vlib.apalache_check("ApaTimestamp", consts, "Vac", label="c17apa")
+    chk.add_model("ApaTimestamp[Vac] (vacuity guard: Init is satisfiable; must fail)", res, verdict, expect="violated")
+    for bug in ("negmin", "addoverflow"):
+        res, verdict = vlib.apalache_check("ApaTimestamp", dict(consts, TsBug=f'"{bug}"'), "Inv", label="c17apa")
+        chk.add_model(f"ApaTimestamp[TsBug={bug}] (self-test, must fail)", res, verdict, expect="violated")
     # earliest-time bookkeeping in the block model: all arrival orders of timed/untimed, storable/unstorable records
     cfg = vlib.make_cfg(work / "MCExporter.cfg", spec="MCSpec",
                         constants={"MaxOps": 4 if tier == "quick" else 5, "Sizes": "{3}", "Emit": "FALSE", "XBug": '"none"'},
@@ -43,12 +53,13 @@ def models(chk, tier):
 
 def run(tier):
     chk = Check("C17", tier, "model_checking")
-    chk.rule = ("model: all words of a scaled word size for offsets, all (secs, ticks, ref, rate) of a grid; traces: exhaustive "
+    chk.rule = ("model: all words of a scaled word size for offsets, all (secs, ticks, ref, rate) of a grid (TLC); the same "
+                "formulas for 64-bit words and every rate 1..10^9 symbolically (Apalache/Z3); traces: exhaustive "
                 "small grid, boundary values (0, 1, rate-1, 2038/2106/2262 limits, INT64_MIN/MAX offsets) at rates 1..10^9 and "
                 "random values on the real Timestamp under UBSan, verified with unbounded arithmetic by TLC; blocks: exporter "
                 "histories with out-of-order and untimed records, TLC checks earliest-time <= every stored instant and exact "
                 "recovery on the real bytes")
-    chk.assumptions = ["TLC + CommunityModules", "UBSan as the instrument for undefined arithmetic", "driver logging"]
+    chk.assumptions = ["TLC + CommunityModules", "Apalache 0.58 + Z3 (symbolic part)", "UBSan as the instrument for undefined arithmetic", "driver logging"]
     models(chk, tier)
     exe = vlib.build_driver("ts_driver", "asan")
     work = vlib.scratch("c17tr")
